@@ -142,4 +142,44 @@ Section Results.
       + intros _ Hne. exfalso. apply Hne. reflexivity.
       + intros F. rewrite P4. exact (u_eof _ _ HI F).
   Qed.
+
+  (* ---- the stream yields an error ---------------------------------------------------------------- *)
+  Lemma InvU_err : forall o o' (s s' : st),
+    InvU o s -> o_incs o' = o_incs o -> o_now o' = o_now o -> o_dropped o' = o_dropped o ->
+    (o_eof o = true -> o_eof o' = true) -> c_err (o_v o') = true ->
+    (forall id, In id (s_cancels s) -> In id (s_cancels s')) ->
+    s_handlers s' = s_handlers s -> s_next_h s' = s_next_h s -> s_inflight s' = s_inflight s ->
+    s_timers s' = s_timers s -> s_aborted s' = s_aborted s -> s_now s' = s_now s ->
+    s_dropped s' = s_dropped s -> s_fused s' = s_fused s ->
+    InvU o' s'.
+  Proof.
+    intros o o' s s' HI T1 T2 T3 Te Tc Hcan C1 C2 C3 C4 C5 C7 C8 Cf.
+    pose proof (u_maybe _ _ HI) as UM. pose proof (u_owner _ _ HI) as UO.
+    destruct HI. constructor; rewrite ?T1, ?T2, ?T3, ?C1, ?C2, ?C3, ?C4, ?C5, ?C7, ?C8, ?Cf; auto.
+    - intros e He. destruct (UO e He) as [[k Hk]|[_ Hy]].
+      + left. exists k. eapply owns_frame; eauto.
+      + right. split; [right; exact Tc|exact Hy].
+    - intros k e oi Hin Ho Hoi Hm.
+      destruct (UM k e oi Hin) as [L|R]; auto. eapply owns_frame; [| | |exact Ho]; auto.
+    - rewrite Tc. discriminate.
+  Qed.
+
+  Lemma o_result_err_proj : forall o a,
+    let o' := o_result o (OStreamErr a) in
+    o_incs o' = o_incs o /\ o_now o' = o_now o /\ o_dropped o' = o_dropped o /\ o_eof o' = o_eof o
+    /\ c_err (o_v o') = true /\ h_stop (o_v o') = h_stop (o_v o) /\ v_bad (o_v o') = v_bad (o_v o).
+  Proof.
+    intros o a. cbv zeta. unfold o_result. oproj. rewrite ?orb_false_r, ?andb_true_r, ?orb_true_r.
+    repeat split; reflexivity.
+  Qed.
+
+  (* ---- gauges ------------------------------------------------------------------------------------ *)
+  Lemma o_gauges_proj : forall st' bl o a b,
+    let o' := o_gauges st' bl o a b in
+    o_incs o' = o_incs o /\ o_now o' = o_now o /\ o_dropped o' = o_dropped o /\ o_eof o' = o_eof o
+    /\ o_pend o' = o_pend o /\ c_err (o_v o') = c_err (o_v o) /\ h_stop (o_v o') = h_stop (o_v o)
+    /\ v_bad (o_v o') = v_bad (o_v o) /\ o_gauge o' = a.
+  Proof.
+    intros st' bl o a b. cbv zeta. unfold o_gauges. destruct st'; [|destruct bl]; oproj; repeat split; reflexivity.
+  Qed.
 End Results.
